@@ -7,6 +7,7 @@ any edit of /repo invalidates it.
 """
 import hashlib
 import json
+import re
 import os
 import shutil
 import subprocess
@@ -462,6 +463,74 @@ class Facts:
             if f['self'] == self_ty:
                 return f
         return None
+
+    # ---- canonical field names of the crate's input adapters (private fields may be renamed freely)
+    WRAPPER_FIELDS = {
+        'CountedInput': [('ref', 'input'), ('ty:u64', 'counter')],
+        'DepthTrackingInput': [('ref', 'input'), ('written:u32', 'depth'), ('unwritten:u32', 'max_depth')],
+        'MemTrackingInput': [('ref', 'input'), ('written:usize', 'used_mem'), ('unwritten:usize', 'mem_limit')],
+        'BytesCursor': [('ty:bytes::bytes::Bytes', 'bytes'), ('ty:usize', 'position')],
+        'PrefixInput': [('ty:core::option::Option<u8>', 'prefix'), ('ref', 'input')],
+    }
+
+    def canon_field(self, lty, fname):
+        """the role name of a field of one of the input adapters, decided by the field's type (and, for two fields of one
+        type, by which of them the methods assign to); any other field keeps its name"""
+        if not fname or not lty:
+            return fname
+        m = re.search(r'([A-Za-z_][A-Za-z0-9_]*)(?:<[^<>]*(?:<[^<>]*>[^<>]*)*>)?\s*$', str(lty).replace('&mut ', '').replace('&', '').strip())
+        short = m.group(1) if m else None
+        if short not in self.WRAPPER_FIELDS:
+            return fname
+        cache = self.__dict__.setdefault('_canon_fields', {})
+        if short not in cache:
+            cache[short] = self._canon_map(short)
+        return cache[short].get(fname, fname)
+
+    def _canon_map(self, short):
+        adt = [a for a in self.adts if a['path'].split('::')[-1] == short and a.get('variants')]
+        if not adt:
+            return {}
+        fields = adt[0]['variants'][0]['fields']
+        written = set()
+
+        def scan(n):
+            if isinstance(n, dict):
+                if n.get('k') in ('assign', 'assignop'):
+                    l = n.get('l')
+                    while isinstance(l, dict) and l.get('k') in ('deref', 'ref'):
+                        l = l.get('e')
+                    if isinstance(l, dict) and l.get('k') == 'field' and short in str(l.get('lty') or ''):
+                        written.add(l.get('fname'))
+                for x in n.values():
+                    scan(x)
+            elif isinstance(n, list):
+                for x in n:
+                    scan(x)
+        for f in self.fns:
+            if f.get('thir') and short in (f.get('self') or ''):
+                scan(f['thir'])
+        out = {}
+        used = set()
+        for kind, role in self.WRAPPER_FIELDS[short]:
+            for fl in fields:
+                if fl['name'] in used:
+                    continue
+                ty = fl['ty']
+                ok = False
+                if kind == 'ref':
+                    ok = ty.startswith('&') and 'mut' in ty
+                elif kind.startswith('ty:'):
+                    ok = ty == kind[3:]
+                elif kind.startswith('written:'):
+                    ok = ty == kind[8:] and fl['name'] in written
+                elif kind.startswith('unwritten:'):
+                    ok = ty == kind[10:] and fl['name'] not in written
+                if ok:
+                    out[fl['name']] = role
+                    used.add(fl['name'])
+                    break
+        return out
 
     def closures_of(self, fn):
         return [c for c in self.children.get(fn['path'], [])]
